@@ -7,3 +7,5 @@ import MidoProofs.SrcTie.Syx
 #print axioms Mido.src_syx_loop
 #print axioms Mido.src_fresh_feed
 #print axioms Mido.src_read_syx
+#print axioms Mido.src_write_syx
+#print axioms Mido.src_syx_roundtrip
